@@ -208,6 +208,22 @@ theorem deletePtr_spec {h : Heap} {p : Option Nat} {c : Chain} {S : List SegT}
     simp only [addrs, List.length_map] at this
     omega
 
+theorem setInner_length {h : Heap} {a : Nat} {t : Option Nat} : (h.setInner a t).cells.length = h.cells.length := by
+  unfold Heap.setInner; split <;> simp [Heap.put_cells_length, Heap.fault]
+theorem setParent_length {h : Heap} {a : Nat} {t : Option Nat} : (h.setParent a t).cells.length = h.cells.length := by
+  unfold Heap.setParent; split <;> simp [Heap.put_cells_length, Heap.fault]
+theorem setParentOpt_length {h : Heap} {a t : Option Nat} : (h.setParentOpt a t).cells.length = h.cells.length := by
+  unfold Heap.setParentOpt; split <;> simp [setParent_length]
+theorem setView_length {h : Heap} {a : Nat} {v : View} : (h.setView a v).cells.length = h.cells.length := by
+  unfold Heap.setView; split <;> simp [Heap.put_cells_length, Heap.fault]
+
+/-- `if (inner_pdu_) inner_pdu_->parent_pdu(q)` on the segment designated by the pointer -/
+theorem SegRep.reparent {h : Heap} {S : List SegT} {p t : Option Nat} {c : Chain} (hr : SegRep h (⟨p, c, t⟩ :: S))
+    (q : Option Nat) : SegRep (h.setParentOpt (hd c) q) (⟨q, c, t⟩ :: S) := by
+  cases c with
+  | nil => exact (hr.drop_nil).add_nil
+  | cons y rest => exact hr.setParent_head q
+
 /-! ### `inner_pdu(PDU*)` -/
 
 theorem innerPduPtr_spec {h : Heap} {S : List SegT} {pa pn tn : Option Nat} {a : Nat} {v : View} {old nxt : Chain}
@@ -219,21 +235,10 @@ theorem innerPduPtr_spec {h : Heap} {S : List SegT} {pa pn tn : Option Nat} {a :
   -- delete inner_pdu_
   have h1 : SegRep h (⟨some a, old, none⟩ :: ⟨pa, [(a, v)], hd old⟩ :: ⟨pn, nxt, tn⟩ :: S) := hr.perm (List.Perm.swap _ _ _)
   obtain ⟨h2, hl2⟩ := deletePtr_spec h1
-  -- inner_pdu_ = next_pdu
+  -- inner_pdu_ = next_pdu; if (inner_pdu_) inner_pdu_->parent_pdu(this)
   have h3 := h2.setInner (hd nxt)
-  have hl3 : ((deletePtr h (hd old)).setInner a (hd nxt)).cells.length = h.cells.length := by
-    rw [← hl2]; unfold Heap.setInner; split <;> simp [Heap.put_cells_length, Heap.fault]
-  cases nxt with
-  | nil =>
-    simp only [hd_nil] at h3 hl3 ⊢
-    exact ⟨(((h3.perm (List.Perm.swap _ _ _)).drop_nil).add_nil (p := some a) (t := tn)).perm (List.Perm.swap _ _ _), hl3⟩
-  | cons y rest =>
-    simp only [hd_cons]
-    have h4 : SegRep ((deletePtr h (hd old)).setInner a (some y.1)) (⟨pn, y :: rest, tn⟩ :: ⟨pa, [(a, v)], some y.1⟩ :: S) :=
-      h3.perm (List.Perm.swap _ _ _)
-    have h5 := h4.setParent_head (some a)
-    refine ⟨h5.perm (List.Perm.swap _ _ _), ?_⟩
-    rw [← hl3]; unfold Heap.setParent; split <;> simp [Heap.put_cells_length, Heap.fault]
+  have h5 := (h3.perm (List.Perm.swap _ _ _)).reparent (some a)
+  exact ⟨h5.perm (List.Perm.swap _ _ _), by rw [setParentOpt_length, setInner_length, hl2]⟩
 
 /-! ### `clone` -/
 
@@ -307,7 +312,7 @@ theorem cloneNode_spec : ∀ (c : Chain) (x : Nat × View) (fuel : Nat) (h : Hea
     · intro z hz
       -- only the two fresh cells are written by inner_pdu
       have hg2 : h2.get h.cells.length = some ⟨xv, none, none⟩ := by simpa using h3.head_get
-      simp only [innerPduPtr, hg2, deletePtr]
+      simp only [innerPduPtr, hg2, deletePtr, Heap.setParentOpt]
       have hgy : ∀ w, w ≠ h.cells.length → (h2.setInner h.cells.length (some (h.cells.length + 1))).get w = h2.get w := by
         intro w hw; unfold Heap.setInner; rw [hg2, Heap.get_put hg2, if_neg hw]
       have hp : ∀ (hh : Heap) (b : Nat) (q : Option Nat) (w : Nat), w ≠ b → (hh.setParent b q).get w = hh.get w := by
